@@ -137,7 +137,7 @@ func (w *c16world) enabled() []c16op {
 		}
 		switch wr.state {
 		case "":
-			for _, n := range []string{"n0", "n1"} {
+			for _, n := range []string{"n0", "n00"} {
 				ops = append(ops, c16op{"create", i, n})
 			}
 		case "open":
@@ -436,7 +436,7 @@ func init() {
 			var cs []Case
 			// split by the first two operations so the subtrees run in parallel
 			for _, n0 := range []string{"n0"} {
-				for _, second := range []c16op{{"create", 1, "n0"}, {"create", 1, "n1"}, {"write", 0, "A"}, {"write", 0, "G"}, {"close", 0, ""}, {"closefail", 0, "fsync"}, {"closefail", 0, "rename"}, {"abort", 0, ""}} {
+				for _, second := range []c16op{{"create", 1, "n0"}, {"create", 1, "n00"}, {"write", 0, "A"}, {"write", 0, "G"}, {"close", 0, ""}, {"closefail", 0, "fsync"}, {"closefail", 0, "rename"}, {"abort", 0, ""}} {
 					second := second
 					root := []c16op{{"create", 0, n0}, second}
 					cs = append(cs, Case{ID: fmt.Sprintf("bfs/%v", root), Run: func() CaseResult { return c16BFS(nw, depth, root) }})
@@ -444,6 +444,6 @@ func init() {
 			}
 			return cs
 		},
-		Rule: "breadth-first search over call sequences of 2 (quick) / 3 (thorough) writer slots: CreateFile with a scripted name draw (n0/n1, so every creation can collide with a committed, in-progress, failed-close or aborted name and must redraw), Write(valid bloom file A/B | garbage), Close, a second Close / an Abort / a Write on a finished writer, Close failing at fsync/rename, Abort, TombstoneFile after the writer finished, slot reuse after tombstone; depth 7 / 8, states deduplicated by (directory contents, writer states); after every step the real directory must equal the map model byte for byte, the scan must list exactly the valid successfully-closed untombstoned files and OpenFile must return the written bytes",
+		Rule: "breadth-first search over call sequences of 2 (quick) / 3 (thorough) writer slots: CreateFile with a scripted name draw (n0/n00 — one name a proper prefix of the other — so every creation can collide with a committed, in-progress, failed-close or aborted name and must redraw), Write(valid bloom file A/B | garbage), Close, a second Close / an Abort / a Write on a finished writer, Close failing at fsync/rename, Abort, TombstoneFile after the writer finished, slot reuse after tombstone; depth 7 / 8, states deduplicated by (directory contents, writer states); after every step the real directory must equal the map model byte for byte, the scan must list exactly the valid successfully-closed untombstoned files and OpenFile must return the written bytes",
 	}
 }
